@@ -13,6 +13,7 @@ from z3 import And, Or, Not, Implies, If, Int, Bool, IntVal, Real
 
 from pyvc.engine import (Engine, PyRaise, PathEnd, Unsupported, LibCallable, GenVal, Closure, SliceVal,
                          BoundMethod, DictVal, new_aid, _Break, _Continue)
+# (DictVal is also the model of the dict subclass _AudioRegionMetadata)
 from pyvc.values import (imul, Seq, Opq, Ref, Fl, ValS, IntS, BoolS, I, B, R, fresh_name, seq_lit, v_eq_goal, ClassVal,
                          fresh_seq, norm_index, seq_slice, seq_concat, as_seq, is_int, r_trunc, r_round_half_even)
 from pyvc.harness import Unit, CheckerError
@@ -179,6 +180,13 @@ def unit_post_init(sess, ctx):
                                           QC + "_SecondsView.__init__"])
     eng = setup(sess, ["auditok.io.check_audio_data", QC + "_SecondsView.__init__"])
     fi = ctx.fi(QR + "__post_init__")
+    metas = []
+
+    def mk_meta(e, a, k):
+        r = e.st.new_obj("MetaDict", {"arg": a[0] if a else None})
+        metas.append(r)
+        return r
+    eng.ctor_contracts["_AudioRegionMetadata"] = mk_meta
 
     def run_(eng):
         st = eng.st
@@ -215,6 +223,11 @@ def unit_post_init(sess, ctx):
             en = h.get("end")
             eng.prove("C05:ctor:end-is-start-plus-duration",
                       (en.t == R(start) + dur.t) if isinstance(en, Fl) and okd else False, props=("C05",))
+            mt = h.get("meta")
+            arg = st.heap[mt.oid]["arg"] if isinstance(mt, Ref) and mt.cls == "MetaDict" else None
+            okm = isinstance(arg, DictVal) and set(arg.entries) == {"start", "end"}
+            eng.prove("C05:ctor:meta-holds-start-and-end-un-swapped",
+                      okm and arg.entries["start"] == (True, h["start"]) and arg.entries["end"][1] is en, props=("C05", "C12", "C15"))
         sv, mv = h.get("_seconds_view"), h.get("_millis_view")
         okv = isinstance(sv, Ref) and sv.cls == "_SecondsView" and isinstance(mv, Ref) and mv.cls == "_MillisView" \
             and st.heap[sv.oid].get("_region") == me and st.heap[mv.oid].get("_region") == me
@@ -440,7 +453,39 @@ def unit_millis(sess, ctx):
     return u
 
 
+def unit_meta(sess, ctx):
+    """_AudioRegionMetadata: attribute access reads / writes the dict entries."""
+    u = Unit("_AudioRegionMetadata.__getattr__/__setattr__", [QC + "_AudioRegionMetadata.__getattr__", QC + "_AudioRegionMetadata.__setattr__"])
+    eng = setup(sess)
+
+    def run_(eng):
+        a, b = Fl(Real("start")), Fl(Real("end"))
+        me = DictVal({"start": (True, a), "end": (True, b)})
+        k = eng.choose(4, None, "operation")
+        if k < 2:
+            nm = ["start", "end"][k]
+            r = eng.run_function(ctx.fi(QC + "_AudioRegionMetadata.__getattr__"), [nm], {}, me)
+            eng.prove("C12:meta:attribute-%s-reads-the-entry" % nm, r is (a if k == 0 else b), props=("C05", "C12", "C15"))
+        elif k == 2:
+            try:
+                eng.run_function(ctx.fi(QC + "_AudioRegionMetadata.__getattr__"), ["nope"], {}, me)
+            except PyRaise as e:
+                eng.prove("C12:meta:unknown-attribute-raises-AttributeError", e.exc == "AttributeError", props=("C05",))
+                return None
+            eng.prove("C12:meta:unknown-attribute-raises-AttributeError", False, props=("C05",))
+        else:
+            t = Opq(tag="time")
+            eng.run_function(ctx.fi(QC + "_AudioRegionMetadata.__setattr__"), ["timestamp", t], {}, me)
+            eng.prove("C12:meta:setting-an-attribute-adds-the-entry-and-keeps-the-others",
+                      me.entries.get("timestamp") == (True, t) and me.entries["start"] == (True, a) and me.entries["end"] == (True, b),
+                      props=("C05", "C12", "C15"))
+        return None
+    sess.run_unit(u, eng, run_)
+    return u
+
+
 UNITS = {
+    "meta": lambda sess, ctx, opts: unit_meta(sess, ctx),
     "post_init": lambda sess, ctx, opts: unit_post_init(sess, ctx),
     "getitem": lambda sess, ctx, opts: unit_getitem(sess, ctx),
     "len": lambda sess, ctx, opts: unit_len(sess, ctx),
